@@ -43,7 +43,16 @@ class V(Symbol):          # value-equal twins (dataclass equality)
         return id(self)
 
 
-CLASSES = {"A": A, "B": B, "C": C, "D": D, "V": V}
+@dataclass(eq=False)
+class F(A):               # live instances are FALSY (an empty container / a switched-off flag is still an instance)
+    def __bool__(self):
+        return False
+
+    def __len__(self):
+        return 0
+
+
+CLASSES = {"A": A, "B": B, "C": C, "D": D, "V": V, "F": F}
 a = args()
 DEPTH = 5 if a.tier == "quick" else 6
 rep = Report("C13", f"all histories of <= {DEPTH} operations from [create A|B|C|D|V, drop oldest, drop newest, collect, query A, query B, query V, "
@@ -60,6 +69,12 @@ SCENARIOS = [
     ["create V", "create V", "drop oldest", "query V", "create V", "query V", "drop oldest", "query V"],
     ["create B", "drop oldest", "create B", "query A", "drop oldest", "create B", "create B", "query B"],
     ["create A", "create B", "create D", "drop oldest", "collect", "create A", "query A", "drop middle", "query A", "query B"],
+    ["create F", "query A", "create F", "create B", "query A", "query F", "drop oldest", "query A"],
+    ["create B", "declare A", "create B", "create D", "evaluate", "query A"],
+    ["create B", "create B", "declare B", "drop oldest", "evaluate"],
+    ["declare A", "create A", "create F", "evaluate", "create B", "evaluate"],
+    ["clear-no-recreate", "create A", "create B", "query A"],
+    ["create A", "clear-no-recreate", "create B", "create B", "query A", "query B"],
 ]
 
 
@@ -95,6 +110,24 @@ def run(history):
             SymbolGraph().clear()
             SymbolGraph()
             census = []
+        elif op == "clear-no-recreate":
+            SymbolGraph().clear()       # the next instance creation has to bring the graph back by itself
+            census = []
+        elif op.startswith("declare"):
+            declared_cls = classes[op.split()[1]]
+            declared = an(entity(let(declared_cls, None)))        # evaluated later: the range is taken at EVALUATION time
+        elif op == "evaluate":
+            gc.collect()
+            want = [r() for r, c in census if r() is not None and issubclass(c, declared_cls)]
+            st, got = guarded(lambda: list(declared.evaluate()))
+            if st == "exc":
+                if not want and isinstance(got, ValueError):
+                    continue
+                return f"step {step} {op}: raised {type(got).__name__}: {got}", "raised"
+            if sorted(map(id, got)) != sorted(map(id, want)):
+                kind = "duplicate" if len(got) > len(set(map(id, got))) else ("missing" if len(got) < len(want) else "wrong")
+                return f"step {step} evaluate (declared earlier): got {got!r}, census {want!r}", kind + "-declared-earlier"
+            del got, want
         elif op.startswith("query"):
             cls = classes[op.split()[1]]
             gc.collect()       # the census is taken over what exists now
